@@ -12,8 +12,9 @@ MANIFEST = {
     "technique": "Rocq proof over the Factory/Resolve model + vm_compute correspondence on generated wiring scenarios",
 }
 
-PROFILES = [(Profile(p_wrap=0.1, n_procs=(0, 3), p_lazy=0.35, p_init=0.8, p_aps=0.5), 450, 4500),
-            (Profile(p_wrap=0.15, n_procs=(1, 2), p_lazy=0.4, p_init=0.9, p_aps=0.5, p_initget=0.4, p_short=0.5), 150, 1500)]
+# crowd scenarios are rare here: the dependencies-first oracle is cubic in the population (C01 C03 C06-C10 C13 carry them)
+PROFILES = [(Profile(p_wrap=0.1, n_procs=(0, 3), p_lazy=0.35, p_init=0.8, p_aps=0.5, p_crowd=0.003), 450, 4500),
+            (Profile(p_wrap=0.15, n_procs=(1, 2), p_lazy=0.4, p_init=0.9, p_aps=0.5, p_initget=0.4, p_short=0.5, p_crowd=0.0), 150, 1500)]
 
 RULE = 'graphs with lazy/eager mixes, 0-3 observing processors of all ordering classes, init callbacks; non-trivial = successful start with >= 1 injected edge and >= 1 Init'
 
